@@ -197,7 +197,7 @@ fn set_hostname_if_missing(host: &str, extra_options: &mut Option<ExtraRequestSe
 /// # Arguments
 /// * `args` - A reference to the command line options.
 /// * `result` - A reference to the result of the query.
-fn output_result<T: CommonResponse + ?Sized>(output_mode: OutputMode, format: OutputFormat, result: &T) {
+fn output_result<T: CommonResponse + ?Sized>(output_mode: OutputMode, format: OutputFormat, result: &T) -> Result<()> {
     match format {
         OutputFormat::Debug => {
             match output_mode {
@@ -207,40 +207,42 @@ fn output_result<T: CommonResponse + ?Sized>(output_mode: OutputMode, format: Ou
         }
         #[cfg(feature = "json")]
         OutputFormat::JsonPretty => {
-            let _ = match output_mode {
+            match output_mode {
                 OutputMode::Generic => output_result_json_pretty(result.as_json()),
                 OutputMode::ProtocolSpecific => output_result_json_pretty(result.as_original()),
-            };
+            }?;
         }
         #[cfg(feature = "json")]
         OutputFormat::Json => {
-            let _ = match output_mode {
+            match output_mode {
                 OutputMode::Generic => output_result_json(result.as_json()),
                 OutputMode::ProtocolSpecific => output_result_json(result.as_original()),
-            };
+            }?;
         }
         #[cfg(feature = "xml")]
         OutputFormat::Xml => {
-            let _ = match output_mode {
+            match output_mode {
                 OutputMode::Generic => output_result_xml(result.as_json()),
                 OutputMode::ProtocolSpecific => output_result_xml(result.as_original()),
-            };
+            }?;
         }
         #[cfg(feature = "bson")]
         OutputFormat::BsonHex => {
-            let _ = match output_mode {
+            match output_mode {
                 OutputMode::Generic => output_result_bson_hex(result.as_json()),
                 OutputMode::ProtocolSpecific => output_result_bson_hex(result.as_original()),
-            };
+            }?;
         }
         #[cfg(feature = "bson")]
         OutputFormat::BsonBase64 => {
-            let _ = match output_mode {
+            match output_mode {
                 OutputMode::Generic => output_result_bson_base64(result.as_json()),
                 OutputMode::ProtocolSpecific => output_result_bson_base64(result.as_original()),
-            };
+            }?;
         }
     }
+
+    Ok(())
 }
 
 /// Output the result using debug formatting.
@@ -443,7 +445,7 @@ fn main() -> Result<()> {
             gamedig::capture::setup_capture(capture);
 
             let result = query_with_timeout_and_extra_settings(game, &ip, port, timeout_settings, extra_options)?;
-            output_result(output_mode, format, result.as_ref());
+            output_result(output_mode, format, result.as_ref())?;
         }
         Action::Source => {
             println!("{}", GAMEDIG_HEADER);
